@@ -10,6 +10,7 @@ import numpy as np
 from .. import lib, ref, tokdecode as td, tokspace as ts
 from ..ref import Graph
 
+OPTIMISED_LAST_SHARD = True  # the last shard runs under python -O (no assert statements)
 LEVEL = "exploration"
 TECHNIQUE = 'runtime monitoring: an independent decoder configured only from tokenizer parameters is the reference model for every observed token stream; region-exhaustive over 9x216 adjacency and 9x1008 path configurations plus a measured pairwise-covering and random set of full tokenizers'
 RULE = ("region-exhaustive: all 9x216 coordinate x adjacency-list configurations and all 9x1008 coordinate x path configurations "
